@@ -75,6 +75,19 @@ EvDoc(name, stream, status, seq, ord) == Ev("doc", name, stream, status, "", seq
 EvDev(d, op, arg, n) == Ev("dev", d, op, arg, "", n, 0)
 EvGen(inp, val, react) == Ev("gen", inp, val, react, "", 0, 0)
 
+\* Documents reach the consumers the plan subscribed itself (Dispatcher.process, in subscription order: after the permanent
+\* subscribers).  Deliver(n, o) = the step's observations o with, after every document (and the num_events records that belong
+\* to a RunStop), one delivery record per in-plan subscription live BEFORE the step (a step that changes the number emits no
+\* documents).  Delivery records carry the document's name and run.
+EvTDoc(e) == Ev("tdoc", e[2], "", "", "", 0, e[7])
+RECURSIVE DeliverFrom(_, _, _, _)
+DeliverFrom(n, o, i, owed) ==
+  IF i > Len(o) THEN owed
+  ELSE IF o[i][1] = "doc" THEN owed \o <<o[i]>> \o DeliverFrom(n, o, i + 1, [j \in 1..n |-> EvTDoc(o[i])])
+  ELSE IF o[i][1] = "nev" THEN <<o[i]>> \o DeliverFrom(n, o, i + 1, owed)
+  ELSE owed \o <<o[i]>> \o DeliverFrom(n, o, i + 1, <<>>)
+Deliver(n, o) == IF n = 0 THEN o ELSE DeliverFrom(n, o, 1, <<>>)
+
 (* messages *)
 Msg(c, o, r, a) == [cmd |-> c, obj |-> o, run |-> r, a |-> a, mid |-> 0, pre |-> <<>>, post |-> <<>>]
 NoMsg == Msg("", "", "", "")
@@ -143,7 +156,8 @@ InitS ==
     finq |-> <<>>,          \* clean-up items <<run key, "mons" | flyer>> still to do (clear_monitors / backstop_collect per open run)
     reason |-> "",          \* RunEngine._reason: "" | "req" (the reason handed to an accepted abort())
     exitReason |-> "",      \* exit_reason (local of _run): "" | "exc" (the text of the exception that ended the plan)
-    planRet |-> FALSE ]     \* the plan ran to completion (StopIteration out of the last generator)
+    planRet |-> FALSE,      \* the plan ran to completion (StopIteration out of the last generator)
+    tsubs |-> 0 ]           \* document consumers subscribed by the plan (Msg('subscribe')) in this call: len(_temp_callback_ids)
 
 Init == S = InitS /\ obs = <<>>
 
@@ -258,6 +272,7 @@ Call(p0, ri) ==
                     !.hasTask = FALSE, !.taskRes = "none", !.taskExc = None, !.exitExc = None, !.planRet = FALSE,
                     !.permit = TRUE, !.blocking = FALSE, !.cancel = FALSE, !.stashed = None, !.lateRet = "",
                     !.reason = "", !.exitReason = "",
+                    !.tsubs = 0,        \* _clear_call_cache (949): the previous call's in-plan subscriptions are dropped HERE, not when it ended
                     !.pc = "start", !.recIntr = ri]
   /\ obs' = <<Ev("call", "run", IF ri THEN "ri" ELSE "", "", "", 0, 0)>>
 
@@ -726,7 +741,11 @@ Exec(d) ==
             \* _subscribe (2599-2643): a per-call document consumer is registered (Dispatcher.tla has the token bookkeeping; it is
             \* dropped again when the call ends), the checkpoint state is reset (an implicit checkpoint: nothing before this message
             \* is replayed), the plan receives the token
-            /\ d = "ok" /\ S' = Done(ResetCkpt(s0), Val("token")) /\ obs' = hook
+            /\ d = "ok" /\ S' = Done(ResetCkpt([s0 EXCEPT !.tsubs = @ + 1]), Val("token")) /\ obs' = hook
+       [] c = "unsubscribe" ->
+            \* _unsubscribe (2645-2663) of a token the plan got from an earlier subscribe of this call (an unknown token is a KeyError:
+            \* not generated): the consumer is removed at once, implicit checkpoint
+            /\ d = "ok" /\ s0.tsubs > 0 /\ S' = Done(ResetCkpt([s0 EXCEPT !.tsubs = @ - 1]), Val(None)) /\ obs' = hook
        [] c = "open_run" ->
             /\ d = "ok"
             /\ IF open THEN S' = Done(s0, IMS) /\ obs' = hook
